@@ -26,11 +26,11 @@ Proof.
   - rewrite b64_val_big in H by lia. discriminate.
 Qed.
 
-Lemma inv_len : N.of_nat (length base64Inverse) = 255. Proof. vm_compute. reflexivity. Qed.
+Lemma inv_len : N.of_nat (length base64Inverse) = 256. Proof. vm_compute. reflexivity. Qed.
 
 Lemma b64_inv_spec : forall c, b64_inv true c = match b64_val c with Some v => v | None => 0xFF end.
 Proof.
-  intros c. unfold b64_inv. rewrite inv_len. destruct (N.ltb_spec c 255) as [L|G].
+  intros c. unfold b64_inv. rewrite inv_len. destruct (N.ltb_spec c 256) as [L|G].
   - pose proof b64_table as T. unfold b64_table_ok in T. rewrite forallb_forall in T.
     assert (I : In c (nrange (length base64Inverse))) by (apply nrange_in; rewrite inv_len; exact L).
     specialize (T c I). destruct (b64_val c); apply N.eqb_eq in T; exact T.
